@@ -12,6 +12,7 @@ Byte-level syntax of the info line beyond its format template is outside.
 """
 import itertools
 import json
+import re
 import z3
 
 from mirsym.executor import State, NOT_HANDLED
@@ -160,23 +161,46 @@ def score_format(run):
     ex.assume(z3.ULT(t, 1 << 64))
     tv = Enum(z3.If(t_some, z3.BitVecVal(1, 64), z3.BitVecVal(0, 64)), {1: (t,), 0: ()})
     templates = []
+    records = []
+    cur = [0]
+
+    def new_arg(ctx, p):
+        m_ = re.search(r'new_(\w+)::<(.*)>$', ctx.callee)
+        return ('fmtarg', m_.group(1), m_.group(2), p)
+    ex.model(r'^core::fmt::rt::Argument(::<.*>)?::new_\w+::<.*>$', new_arg)
 
     def fmt_args(ctx, *a):
-        # which format template is used on which path (the strings themselves stay opaque)
+        # which format template is used on which path, and with which argument values (the strings themselves stay opaque)
         from mirsym.models import as_str, StrV
         t = as_str(ctx, a[0]) if a else None
         if isinstance(t, StrV):
             templates.append((ctx.st.guard, t.s))
+            vals = []
+            if len(a) > 1:
+                try:
+                    for arg in ctx.deref(a[1]):
+                        if isinstance(arg, tuple) and arg and arg[0] == 'fmtarg':
+                            v = ctx.deref(arg[3])
+                            if arg[2] in ('&str', 'str', 'std::string::String') or arg[2].startswith('&'):
+                                try:
+                                    v = as_str(ctx, v)
+                                except Exception:
+                                    pass
+                            vals.append((arg[2], v))
+                except Unsupported:
+                    vals = None
+            records.append((ctx.st.guard, t.s, vals, cur[0]))
         return Opaque('fmt::Arguments', None)
     ex.model(r'^std::fmt::Arguments(::<.*>)?::(new|from_str|from_str_nonconst|new_const|new_v1).*$', fmt_args)
-    for npv in (0, 1, 3):
+    for npv in (0, 1, 2, 3, 4):
+        cur[0] = npv
         pvp = ex.alloc(st, Seq.of([env.G.ply_value(0, 0)] * npv))
         callee = env.item('log_uci_info')
         r = ex.call(callee, [sp, z3.BitVec('depth', 8), tv, pvp], ['&search::Search', 'u8', 'std::option::Option<u128>', '&[board::ply::Ply]'], '()', st, 'harness')
     run.absorb(ex)
     for ob, qq in run.check_obligations(ex, name):
         report(run, qq, name, 'panic reachable in log_uci_info: %s %s' % (ob.where.split('::')[-1], ob.msg[:80]))
-    run.decide('%s/reached' % name, [z3.BoolVal(len(env.env['events']) < 3)], kind='smt', note='log_uci_info produced a line for each of the three pv lengths')
+    run.decide('%s/reached' % name, [z3.BoolVal(len(env.env['events']) < 5)], kind='smt', note='log_uci_info produced a line for each of the five pv lengths')
     # cp vs mate: a mate score (MIN + ply or its negation, ply <= 255) is reported as `score mate`, a static-evaluation
     # score (|s| <= 30000) as `score cp`
     mate_t = b_or(*[g for g, t in templates if 'score mate' in t])
@@ -192,6 +216,41 @@ def score_format(run):
         if q.verdict == 'sat':
             v = q.model.eval(sc, model_completion=True)
             report(run, q, name, 'score %s is reported with the wrong unit (cp / mate)' % v)
+        # moves-to-mate: with a principal variation that runs to the mate (k plies), `mate N` must say N = ceil(k/2), negative
+        # exactly when the side to move is the one being mated
+        bad, seen = [], 0
+        for g, tpl, vals, k in records:
+            if 'score mate' not in tpl:
+                continue
+            if vals is None:
+                run.inconclusive.append('%s: the arguments of the mate template could not be read' % name)
+                continue
+            seen += 1
+            ints = [v for ty, v in vals if ty in ('usize', 'u8', 'u16', 'u32', 'u64', 'u128', 'i16', 'i32', 'i64', 'isize')]
+            strs = [v for ty, v in vals if ty not in ('usize', 'u8', 'u16', 'u32', 'u64', 'u128', 'i16', 'i32', 'i64', 'isize')]
+            if len(ints) != 1:
+                run.inconclusive.append('%s: mate template with %d integer arguments' % (name, len(ints)))
+                continue
+            n = ints[0]
+            nt = z3.BV2Int(bv(n)) if not (z3.is_expr(n) and z3.is_int(n)) else n
+            if 'mate -' in tpl:
+                sign = z3.BoolVal(True)
+            elif strs:
+                e = strs[0]
+                emp = e.empty if hasattr(e, 'empty') else (len(e.s) == 0 if hasattr(e, 's') else None)
+                if emp is None:
+                    run.inconclusive.append('%s: sign argument of the mate template is %r' % (name, e))
+                    continue
+                sign = z3.Not(zb(emp))
+            else:
+                sign = z3.BoolVal(False)
+            bad.append(z3.And(zb(g), z3.Or(nt != (k + 1) // 2, sign != (sc < 0))))
+        if seen:
+            q = run.decide('%s/moves-to-mate' % name, ex.pre + [has, is_mate, z3.Or(*bad) if bad else z3.BoolVal(False)], kind='smt',
+                           note='pv of k plies to the mate (k = 0..4): the line says mate ceil(k/2), with a minus sign iff the score is negative')
+            if q.verdict == 'sat':
+                v = q.model.eval(sc, model_completion=True)
+                report(run, q, name, 'a mate score (%s) is reported with the wrong number of moves to mate or the wrong sign' % v)
 
 
 def worker(run, job):
